@@ -2,6 +2,6 @@
 (set-logic ALL)
 (declare-const perm_Wallet1_acc9 Bool)
 (assert perm_Wallet1_acc9)
-(define-fun t330 () Bool (not perm_Wallet1_acc9))
-(assert t330)
+(define-fun t178 () Bool (not perm_Wallet1_acc9))
+(assert t178)
 (check-sat)
